@@ -1,0 +1,26 @@
+//go:build verif
+
+/*
+ * SPDX-License-Identifier: Apache-2.0
+ */
+
+package badger
+
+import "github.com/dgraph-io/badger/v4/y"
+
+// VerifBatchSet writes raw entries (key, version, meta bits, user meta, expiry, value)
+// through the production write path (db.batchSet: value log + WAL + memtable), the way
+// value-log GC and the merge operator do. The version of each entry must be non-zero.
+func (db *DB) VerifBatchSet(entries []VerifEntry) error {
+	es := make([]*Entry, 0, len(entries))
+	for _, v := range entries {
+		es = append(es, &Entry{
+			Key:       y.KeyWithTs(v.Key, v.Version),
+			Value:     v.Value,
+			UserMeta:  v.UserMeta,
+			ExpiresAt: v.ExpiresAt,
+			meta:      v.Meta,
+		})
+	}
+	return db.batchSet(es)
+}
